@@ -34,7 +34,14 @@ META = {
             "reading of if/cond/and/or/begin/letrec/apply (cond/and/or are prelude MACROS whose expansion is C01/C17's "
             "business) and its builtin table `prims`; the whitespace-normalised "
             "source text is additionally hash-checked on every run (second line of defence, also covers `void`); allocation is modelled as append (no free list/GC: C03); "
-            "numbers are exact integers only; circular structures are outside the property and never generated; "
+            "numbers are exact integers only; circular structures are outside the property and never generated — except for "
+            "`length`, whose repaired definition (fix 08d0569: two cursors + accumulator) has the extra clause "
+            "length_cyclic_err / length_total: on every well-formed store a cdr chain that never ends is answered by the "
+            "`expected pair` error within |cells|+2 units of fuel, never `diverge` (proof only; cyclic inputs are exercised by "
+            "C06); length_ok / length_err keep their statements (fuel bound now |as|/2+1 < fuel: one unit for length, one per "
+            "call of its local count, which advances two pairs); `(map f)` / `(for-each f)` without a list are the arity error "
+            "in model and code since fix 71c917c (map_without_list; prelude_image_map / _forEach cover the empty list of "
+            "lists too); "
             "readings of R7RS 'it is an error' cases are listed at the top of lean/Marwood/Spec/Store.lean "
             "(lazy traversal for memq..assoc/list-tail/list-ref/map, non-pair alist entries skipped, list-tail needs "
             "a pair or () as first argument); optional range arguments of vector->list / vector-fill! are not "
@@ -51,7 +58,7 @@ vectorSet_err_index vectorRef_vectorSet vectorFill_ok vectorLength_ok vectorLeng
 makeVector_err vectorCopy_ok vectorCopy_all vectorCopy_err_range vectorCopyBang_ok vectorCopyBang_ok_start
 vectorCopyBang_ok_whole vectorCopyBang_err cons_ok car_ok cdr_ok car_err cdr_err car_cons setCar_ok setCdr_ok
 setCar_err setCdr_err setCar_visible reverse_ok reverse_err list_ok vectorToList_ok listToVector_ok listToVector_err
-length_ok length_err isList_spec listTail_ok listTail_err listTail_err_index listRef_ok listRef_err eqv_key
+length_ok length_err length_cyclic_err length_total map_without_list isList_spec listTail_ok listTail_err listTail_err_index listRef_ok listRef_err eqv_key
 eqv_symbol mem_spec ass_spec append_ok append_err
 prelude_source_caar prelude_source_list prelude_source_length prelude_source_memq prelude_source_memv
 prelude_source_member prelude_source_assq prelude_source_assv prelude_source_assoc prelude_source_anyP
@@ -64,11 +71,11 @@ prelude_image_forEach prelude_image_caar prelude_image_list""".split()]
 # sha256[:16] of the whitespace-normalised text of the prelude definitions transcribed in
 # lean/Marwood/Store/Prelude.lean (and ListOps.list for `list`)
 PRELUDE_HASHES = {
-    "void": "d330565d8086fa4f", "list": "1f41e1548aa0a901", "length": "e58bd80730f7d60c",
+    "void": "d330565d8086fa4f", "list": "1f41e1548aa0a901", "length": "0d305a98172a22bb",
     "memq": "1098d263c38980bc", "memv": "2bb1fbe2a677a8a9", "member": "4c15d01b0749c1e0",
     "assq": "5bce373d2e2f82b9", "assv": "45160c0d81306f9e", "assoc": "1eb3c5d72a70c0cc",
     "caar": "4563d3d567626967", "any?": "402f887b896dfdb1", "map1": "c200aac41ca27ade",
-    "map": "350d1f1dcbc6f4b4", "for-each": "c44bdf8ef21217e4",
+    "map": "73b03e403869e26c", "for-each": "df7d036dd9b91399",
 }
 
 
